@@ -4,6 +4,7 @@
 //! (shardable) monitor in-process and print one JSON report.
 
 mod probe;
+mod unsafeslice;
 mod chunkcheck;
 #[cfg(feature = "arc")]
 mod conc;
@@ -135,6 +136,11 @@ fn real_main() {
             }
             println!("{}", json!({"faults": faults}));
         }
+        "unsafe-slice" => {
+            // kvrun unsafe-slice <scale>   (the Miri / ASan workload)
+            let scale: usize = args.get(2).and_then(|s| s.parse().ok()).unwrap_or(1);
+            println!("{}", unsafeslice::run(scale));
+        }
         "format-grid" => match panics::guarded(strcheck::format_grid) {
             Ok(v) => println!("{v}"),
             Err(p) => println!("{}", json!({"panic": panics::to_json(&p)})),
@@ -163,11 +169,13 @@ fn real_main() {
 }
 
 fn main() {
+    // Miri has no setrlimit and interprets on its own (small) stack model
+    #[cfg(not(miri))]
     set_limits();
     panics::install();
     // Run on a thread with a large stack: deeply nested inputs recurse in the parser/compiler
     let handle = std::thread::Builder::new()
-        .stack_size(512 << 20)
+        .stack_size(if cfg!(miri) { 16 << 20 } else { 512 << 20 })
         .spawn(|| {
             monitor::install();
             real_main()
